@@ -162,7 +162,7 @@ func genATCfg(g *simkit.Gen, swarm bool) ATCfg {
 	}
 	c.Serializer = simkit.Pick(g, []string{"json", "json", "protobuf"})
 	if g.Prob(0.5) {
-		c.Compress = simkit.Pick(g, []string{"Gzip", "Zip", "Bzip2", "Lz4", "Deflate", "Zstd", "gzip", "", "Sevenz"})
+		c.Compress = simkit.Pick(g, []string{"Gzip", "Zip", "Bzip2", "Lz4", "Lz4", "Deflate", "Zstd", "gzip", "", "Sevenz"})
 	}
 	c.DataValidation = g.Prob(0.8)
 	c.OnlyUpdateCols = g.Bool()
